@@ -26,6 +26,7 @@ type G struct {
 	maxSeg int
 	nextSeed uint32
 	dumpEvery int
+	bigValues bool
 	nmut   int
 }
 
@@ -99,8 +100,17 @@ func (g *G) del(k []byte) {
 func (g *G) afterMut() {
 	g.nmut++
 	if g.dumpEvery > 0 && g.nmut%g.dumpEvery == 0 {
-		g.do("dump")
+		g.dump()
 	}
+}
+
+// dump compares the whole state: segments, metadata, index as a key->pointer map, directory (dump),
+// the physical bucket chains (dumpindex, chain model only) and evaluates the Coq invariant on the
+// model's state (checkinv).
+func (g *G) dump() {
+	g.do("dump")
+	g.do("dumpindex")
+	g.do("checkinv", "checkinv ok")
 }
 
 func (g *G) get(k []byte) {
@@ -201,6 +211,9 @@ func (g *G) randomKeys(n int) [][]byte {
 }
 
 func (g *G) value() []byte {
+	if g.bigValues && g.r.chance(60) {
+		return g.r.bytes(300 + g.r.intn(900))
+	}
 	switch g.r.intn(10) {
 	case 0:
 		return []byte{}
